@@ -667,6 +667,7 @@ fn collect_defs(body: &[Stmt], scope: usize, r: &mut Resolver, order: &mut usize
                 }
                 collect_defs(body, inner, r, order, seg, seg_names, owner, owner_ctr);
             }
+            Stmt::Test { body, .. } => collect_defs(body, scope, r, order, seg, seg_names, dyn_owner, owner_ctr),
             Stmt::Segment { name, block } => {
                 let idx = seg_names.iter().position(|n| n == name).unwrap_or(0);
                 match block {
@@ -753,13 +754,19 @@ impl<'e> Pass2<'e> {
                         *e = ne;
                     }
                 }
-                Stmt::MacroCall { args, .. } => {
+                Stmt::MacroCall { args, .. } | Stmt::Trace { args: Some(args) } => {
                     for v in args.iter_mut() {
                         if let Some(ne) = self.fill_expr(v, scope, *seg, here, dyn_owner, &near) {
                             *v = ne;
                         }
                     }
                 }
+                Stmt::Assert { e, .. } => {
+                    if let Some(ne) = self.fill_expr(e, scope, *seg, here, dyn_owner, &near) {
+                        *e = ne;
+                    }
+                }
+                Stmt::Test { body: b, .. } => self.fill_block(b, scope, seg, seg_names, dyn_owner, child_scopes),
                 Stmt::Label { name, block: Some(b) } => {
                     let inner = self.r.nodes[scope].children.get(name.as_str()).copied().unwrap();
                     self.fill_block(b, inner, seg, seg_names, dyn_owner, child_scopes);
@@ -1190,6 +1197,32 @@ pub fn build(entropy: &[u32], cfg: &GenCfg) -> Built {
             main.push(Stmt::Braces(inner));
         }
         main.push(Stmt::Data { size: DataSize::Byte, vals: vec![Expr::id(&v)] });
+    }
+
+    if cfg.tests {
+        // tests whose bodies, assertions and traces refer to what the program defines (never emitted by a build; the
+        // language server looks into them)
+        let seed: Vec<u32> = entropy.iter().map(|v| v.rotate_left(19) ^ 0x85eb_ca6b).collect();
+        let mut e5 = Ent::new(&seed);
+        for k in 0..e5.below(3) {
+            let mut body: Vec<Stmt> = vec![];
+            for _ in 0..1 + e5.below(3) {
+                let sel = e5.next();
+                body.push(match e5.below(5) {
+                    0 => Stmt::Instr { mn: "jsr".into(), form: Form::Plain, operand: Some(placeholder(KIND_ADDR, sel)) },
+                    1 => Stmt::Instr { mn: "lda".into(), form: Form::Plain, operand: Some(placeholder(KIND_ADDR, sel)) },
+                    2 => Stmt::Assert {
+                        e: Expr::bin(Expr::path(&["cpu".to_string(), "a".to_string()]), BinOp::Eq, placeholder(KIND_IMM, sel)),
+                        msg: if e5.chance(1, 2) { Some("not what was expected".into()) } else { None },
+                    },
+                    3 => Stmt::Assert { e: Expr::bin(placeholder(KIND_ADDR, sel), BinOp::GtEq, Expr::num(0)), msg: None },
+                    _ => Stmt::Trace { args: Some(vec![placeholder(KIND_ADDR, sel), placeholder(KIND_ZPISH, sel.rotate_left(9))]) },
+                });
+            }
+            body.push(Stmt::Instr { mn: "brk".into(), form: Form::None, operand: None });
+            main.push(Stmt::Test { name: format!("zztest{}", k), body });
+            b.stats.features.insert("test_with_references".into());
+        }
     }
 
     let mut prog = Program::single(main);
